@@ -7,7 +7,10 @@
       [cons k r]   : r never moves the reader backwards and consumes at least
                      [k] bytes when it succeeds (what makes |rest|+1 fuel enough);
     plus [cost], a Hoare-style judgement for steps and allocation of
-    straight-line readers.  The per-decoder theorems are assembled from them. *)
+    straight-line readers; [agree] (the candidate fix is conservative); [J]/[JT]
+    (allocation paid for by consumed input) and [AB] (allocation of the ACM
+    info decoder).  The per-decoder theorems are assembled from them; the
+    statements used by Props/C15.v are the [P_*] lemmas at the end. *)
 From CSS Require Import Lib.Base Model.Decoders.
 From CSS Require Model.EventLog Proofs.EventLog.
 From Coq Require Import Lia ZArith List Bool.
@@ -871,3 +874,937 @@ Proof.
   destruct (policy_data fx _) as [a s|c s| |]; cbn [res_steps]; unfold phi in H; cbn [s_steps s_rest] in H;
     unfold lenZ in *; lia.
 Qed.
+
+(** * Run-level vocabulary *)
+
+(** value or error: the run neither panics nor exhausts the loop fuel *)
+Definition value_or_error {A} (r : res A) : Prop := r <> RPanic /\ r <> RFuel.
+
+Lemma voe_run {A} (r : rd A) i : nopanic r -> nofuel r -> value_or_error (run r i).
+Proof. intros H1 H2. split; [apply H1 | apply H2]. Qed.
+
+(** * ParseRegisters (JSON register dump) *)
+
+Lemma takeZ_shorter : forall l n a r, takeZ l n = Some (a, r) -> (length r <= length l)%nat.
+Proof. intros l n a r H. apply takeZ_some in H. lia. Qed.
+
+Lemma parse_registers_total : forall fuel enc acc s, (length enc < fuel)%nat ->
+  parse_registers fuel enc acc s <> RPanic /\ parse_registers fuel enc acc s <> RFuel.
+Proof.
+  induction fuel as [|f IH]; intros enc acc s Hl; [lia|].
+  cbn [parse_registers]. destruct enc as [|il t]; [split; discriminate|].
+  destruct (takeZ t il) as [[id t1]|] eqn:T1; [|split; discriminate].
+  destruct t1 as [|vl t2]; [split; discriminate|].
+  destruct (takeZ t2 vl) as [[v t3]|] eqn:T2; [|split; discriminate].
+  pose proof (value_from_bytes_nopanic id v (set_rest s v)) as N1.
+  pose proof (value_from_bytes_nofuel id v (set_rest s v)) as N2.
+  destruct (value_from_bytes id v (set_rest s v)) as [r s'|c s'| |]; try congruence; [|split; discriminate].
+  apply IH. apply takeZ_shorter in T1. apply takeZ_shorter in T2. cbn [length] in *. lia.
+Qed.
+
+Theorem json_registers_total enc : value_or_error (run (parse_registers (S (length enc)) enc []) []).
+Proof. unfold run. apply parse_registers_total. lia. Qed.
+
+(** * steps of the line-oriented decoders: one per line, at most |input|+1 lines *)
+
+Lemma split_on_length : forall sep l, (length (split_on sep l) <= S (length l))%nat.
+Proof.
+  induction l as [|x t IH]; cbn [split_on length]; [lia|].
+  destruct (split_on sep t) as [|cur rest] eqn:E; [cbn; lia|].
+  destruct (x =? sep); cbn [length] in *; lia.
+Qed.
+
+Lemma sysfs_loop_steps : forall g lines ln pcrs s,
+  match sysfs_loop g lines ln pcrs s with
+  | ROk _ s' | RErr _ s' => s_steps s' <= s_steps s + Z.of_nat (length lines) /\ s_alloc s' = s_alloc s
+  | _ => True
+  end.
+Proof.
+  induction lines as [|line t IH]; intros ln pcrs s; cbn [sysfs_loop length]; [cbn; lia|].
+  assert (HT : forall ln' pcrs', match sysfs_loop g t ln' pcrs' (tick s) with
+    | ROk _ s' | RErr _ s' => s_steps s' <= s_steps s + Z.of_nat (S (length t)) /\ s_alloc s' = s_alloc s
+    | _ => True end).
+  { intros ln' pcrs'. specialize (IH ln' pcrs' (tick s)). destruct (sysfs_loop g t ln' pcrs' (tick s)); auto;
+      cbn [tick s_steps s_alloc] in IH; lia. }
+  destruct line as [|c0 lt]; [apply HT|].
+  destruct (sscanf_pcr _) as [[idx v]|c| |]; auto; [|cbn [tick s_steps s_alloc]; lia].
+  destruct (_ && _); [cbn [tick s_steps s_alloc]; lia|].
+  destruct (negb (ln =? idx)); [cbn [tick s_steps s_alloc]; lia|].
+  destruct (negb (lenZ v =? 20)); [cbn [tick s_steps s_alloc]; lia|].
+  destruct (set_nth _ _ _); [apply HT | exact I].
+Qed.
+
+Theorem parse_sysfs_pcrs_steps d :
+  res_steps (run (parse_sysfs_pcrs d) d) <= lenZ d + 1 /\ res_alloc (run (parse_sysfs_pcrs d) d) = 0.
+Proof.
+  unfold run, parse_sysfs_pcrs, parse_sysfs_pcrs_g, bind.
+  pose proof (sysfs_loop_steps true (split_on 10 d) 0 (repeat [] 24) (mkSt d 0 0)) as H.
+  pose proof (split_on_length 10 d) as HL.
+  destruct (sysfs_loop _ _ _ _ _) as [p s'|c s'| |]; cbn [ret res_steps res_alloc s_steps s_alloc] in *; unfold lenZ; lia.
+Qed.
+
+Lemma caps_loop_steps : forall lines s,
+  match caps_loop lines s with
+  | ROk _ s' | RErr _ s' => s_steps s' <= s_steps s + Z.of_nat (length lines) /\ s_alloc s' = s_alloc s
+  | _ => True
+  end.
+Proof.
+  induction lines as [|l t IH]; intros s; cbn [caps_loop length]; [cbn; lia|].
+  destruct (split_colon l) as [[k v]|]; [|cbn [tick s_steps s_alloc]; lia].
+  destruct (zlist_eqb _ _); [cbn [tick s_steps s_alloc]; lia|].
+  specialize (IH (tick s)). destruct (caps_loop t (tick s)); auto; cbn [tick s_steps s_alloc] in IH; lia.
+Qed.
+
+Theorem local_caps_steps d :
+  res_steps (run (local_caps d) d) <= lenZ d + 1 /\ res_alloc (run (local_caps d) d) = 0.
+Proof.
+  unfold run, local_caps, bind.
+  pose proof (caps_loop_steps (split_on 10 d) (mkSt d 0 0)) as H.
+  pose proof (split_on_length 10 d) as HL.
+  destruct (caps_loop _ _) as [p s'|c s'| |]; cbn [ret res_steps res_alloc s_steps s_alloc] in *; unfold lenZ; lia.
+Qed.
+
+(** * LCP: the panic of the faithful decoder comes from one site only *)
+
+Lemma elt_custom_panic_size size s : elt_custom faithful size s = RPanic -> size < 32.
+Proof.
+  unfold elt_custom. cbn [fx_custom_min faithful andb].
+  intros H. destruct (size - 16 - 16 <? 0) eqn:E; [apply Z.ltb_lt in E; lia|]. exfalso. revert H.
+  assert (N : nopanic (d1 <- read_le 4;; d2 <- read_le 2;; d3 <- read_le 2;; d4 <- read_le 2;; d5 <- read_n 6;;
+                       cap_guard faithful (size - 16 - 16);;; alloc_chk (size - 16 - 16) 1;;;
+                       dt <- read_slice (size - 16 - 16);; ret ([d1; d2; d3; d4] ++ d5 ++ [lenZ dt] ++ dt))).
+  { np. apply nopanic_alloc_chk. exact E. }
+  apply N.
+Qed.
+
+Section PanicSite.
+  Variable fx : fixes.
+  Hypothesis HC : forall size, nopanic (elt_custom fx size).
+
+  Lemma nopanic_element_g : nopanic (element fx).
+  Proof.
+    unfold element. np;
+      first [apply nopanic_elt_mle | apply nopanic_elt_sbios | apply nopanic_elt_pconf | apply HC].
+  Qed.
+  Lemma nopanic_list1_loop_g e : nopanic (list1_loop fx e).
+  Proof. unfold list1_loop. np. apply nopanic_element_g. Qed.
+  Lemma nopanic_policy_list1_g : nopanic (policy_list1 fx).
+  Proof. unfold policy_list1. np; first [apply nopanic_list1_loop_g | apply nopanic_lcp_signature]. Qed.
+  Lemma nopanic_policy_list2_g : nopanic (policy_list2 fx).
+  Proof. unfold policy_list2. np. apply nopanic_element_g. Qed.
+  Lemma nopanic_policy_data_g : nopanic (policy_data fx).
+  Proof. unfold policy_data. np; first [apply nopanic_policy_list1_g | apply nopanic_policy_list2_g]. Qed.
+End PanicSite.
+
+(** the candidate fix (reject Size < 32) changes nothing except on the inputs
+    on which the faithful decoder panics *)
+Definition agree {A} (r1 r2 : rd A) : Prop := forall s, r1 s = RPanic \/ r1 s = r2 s.
+
+Lemma agree_refl {A} (r : rd A) : agree r r. Proof. intros s; now right. Qed.
+Lemma agree_bind {A B} (r1 r2 : rd A) (f1 f2 : A -> rd B) :
+  agree r1 r2 -> (forall a, agree (f1 a) (f2 a)) -> agree (bind r1 f1) (bind r2 f2).
+Proof.
+  intros Hr Hf s. unfold bind. destruct (Hr s) as [E|E]; [rewrite E; now left|].
+  rewrite <- E. destruct (r1 s); auto. apply Hf.
+Qed.
+Lemma agree_or_else {A} (r1 r2 h1 h2 : rd A) : agree r1 r2 -> agree h1 h2 -> agree (or_else r1 h1) (or_else r2 h2).
+Proof.
+  intros Hr Hh s. unfold or_else. destruct (Hr s) as [E|E]; [rewrite E; now left|].
+  rewrite <- E. destruct (r1 s); auto.
+Qed.
+Lemma agree_loopS {X} (cont : X -> bool) (b1 b2 : X -> rd X) :
+  (forall x, agree (b1 x) (b2 x)) -> forall fuel x, agree (loopS fuel cont b1 x) (loopS fuel cont b2 x).
+Proof.
+  intros Hb. induction fuel as [|f IH]; intros x s; cbn [loopS]; destruct (cont x); auto.
+  destruct (Hb x s) as [E|E]; [rewrite E; now left|]. rewrite <- E. destruct (b1 x s); auto. apply IH.
+Qed.
+Lemma agree_loop {X} (cont : X -> bool) (b1 b2 : X -> rd X) x :
+  (forall x, agree (b1 x) (b2 x)) -> agree (loop cont b1 x) (loop cont b2 x).
+Proof. intros Hb s. unfold loop. now apply agree_loopS. Qed.
+Lemma agree_repeat_n n (b1 b2 : rd (list Z)) : agree b1 b2 -> agree (repeat_n n b1) (repeat_n n b2).
+Proof.
+  intros Hb. unfold repeat_n. apply agree_bind; [|intros; apply agree_refl].
+  apply agree_loop. intros x. apply agree_bind; [exact Hb | intros; apply agree_refl].
+Qed.
+
+Definition fix_custom : fixes := mkFx true false.
+
+(** [agree_refl] only where both sides are syntactically the same reader (a
+    failing unification of two large decoders would normalise both) *)
+Ltac ag_same := match goal with |- agree ?a ?b => constr_eq a b; apply agree_refl end.
+Ltac ag_prefix := repeat (apply agree_bind; [ag_same | intros ?]).
+
+Lemma agree_elt_custom size : agree (elt_custom faithful size) (elt_custom fix_custom size).
+Proof.
+  unfold elt_custom, cap_guard. cbn [fx_custom_min fx_cap faithful fix_custom andb].
+  ag_prefix.
+  destruct (size - 16 - 16 <? 0) eqn:E; [|ag_same].
+  intros s. left. unfold bind, alloc_chk. rewrite E. reflexivity.
+Qed.
+
+Lemma agree_element : agree (element faithful) (element fix_custom).
+Proof.
+  unfold element. ag_prefix.
+  apply agree_bind; [|intros; apply agree_refl].
+  repeat (match goal with |- agree (if ?b then _ else _) _ => destruct b end); try ag_same.
+  apply agree_elt_custom.
+Qed.
+
+Theorem policy_data_fix_conservative : agree (policy_data faithful) (policy_data fix_custom).
+Proof.
+  unfold policy_data. ag_prefix.
+  apply agree_bind; [|intros; apply agree_refl].
+  apply agree_repeat_n. apply agree_or_else.
+  - unfold policy_list1. ag_prefix.
+    apply agree_bind; [|intros; apply agree_refl].
+    unfold list1_loop. apply agree_bind; [|intros; apply agree_refl].
+    apply agree_loop. intros x. apply agree_bind; [apply agree_element | intros; apply agree_refl].
+  - unfold policy_list2, cap_guard. cbn [fx_cap faithful fix_custom andb]. ag_prefix.
+    apply agree_bind; [|intros; apply agree_refl].
+    apply agree_repeat_n. apply agree_bind; [apply agree_element | intros; apply agree_refl].
+Qed.
+
+
+(** * Allocation of the LCP policy-data decoder with the size guards
+
+    [psi C s] = bytes allocated so far + C x bytes left.  A reader satisfies
+    [J C M] when every allocation is paid for by input it consumes (C bytes of
+    allocation per input byte), except that a run which fails because the input
+    ended may leave at most [M] bytes unpaid -- and then the reader is exhausted,
+    so nothing can be allocated on top of it. *)
+
+Definition psi (C : Z) (s : st) : Z := s_alloc s + C * lenZ (s_rest s).
+
+Definition J (C M : Z) {A} (r : rd A) : Prop := forall s,
+  match r s with
+  | ROk _ s' => psi C s' <= psi C s
+  | RErr _ s' => psi C s' <= psi C s \/ (s_rest s' = [] /\ psi C s' <= psi C s + M)
+  | _ => True
+  end.
+
+Lemma lenZ_nonneg (l : list Z) : 0 <= lenZ l. Proof. unfold lenZ. lia. Qed.
+
+Lemma takeZ_lenZ : forall l n a r, takeZ l n = Some (a, r) -> lenZ l = Z.max 0 n + lenZ r.
+Proof.
+  intros l n a r H. apply takeZ_some in H. destruct H as (E & _ & _ & L).
+  unfold lenZ in *. rewrite E at 1. rewrite app_length, Nat2Z.inj_add. lia.
+Qed.
+
+Lemma J_ret C M {A} (a : A) : J C M (ret a). Proof. intros s; cbn; lia. Qed.
+Lemma J_fail C M {A} c : J C M (@fail A c). Proof. intros s; cbn; left; lia. Qed.
+Lemma J_read_n C M n : 0 <= C -> J C M (read_n n).
+Proof.
+  intros HC s. unfold read_n. destruct (n <=? 0); [cbn; lia|].
+  destruct (s_rest s) as [|x t] eqn:E.
+  - left. unfold psi. cbn [tick s_alloc s_rest]. lia.
+  - rewrite <- E. destruct (takeZ (s_rest s) n) as [[a r]|] eqn:T.
+    + apply takeZ_lenZ in T. unfold psi. cbn [set_rest tick s_alloc s_rest]. pose proof (lenZ_nonneg r). nia.
+    + left. unfold psi. cbn [set_rest tick s_alloc s_rest]. pose proof (lenZ_nonneg (s_rest s)).
+      change (lenZ []) with 0. nia.
+Qed.
+Lemma J_bind C M {A B} (r : rd A) (f : A -> rd B) : J C M r -> (forall a, J C M (f a)) -> J C M (bind r f).
+Proof.
+  intros Hr Hf s. unfold bind. specialize (Hr s). destruct (r s) as [a s1|c s1| |]; auto.
+  specialize (Hf a s1). destruct (f a s1) as [b s2|c s2| |]; auto; [lia|].
+  destruct Hf as [H|[H1 H2]]; [left; lia | right; split; [exact H1 | lia]].
+Qed.
+Lemma J_bind_fail C M {A B} c (f : A -> rd B) : J C M (bind (fail c) f).
+Proof. intros s. cbn. left. lia. Qed.
+Lemma J_read_le C M n : 0 <= C -> J C M (read_le n).
+Proof. intros. apply J_bind; [now apply J_read_n | intros; apply J_ret]. Qed.
+Lemma J_read_be C M n : 0 <= C -> J C M (read_be n).
+Proof. intros. apply J_bind; [now apply J_read_n | intros; apply J_ret]. Qed.
+Lemma J_bind_le C M {B} n (f : Z -> rd B) : 0 <= C ->
+  (forall v, 0 <= v < 256 ^ Z.max 0 n -> J C M (f v)) -> J C M (bind (read_le n) f).
+Proof.
+  intros HC Hf s. unfold bind. pose proof (J_read_le C M n HC s) as Hr.
+  destruct (read_le n s) as [v s1|c s1| |] eqn:E; auto.
+  apply read_le_value in E. specialize (Hf v E s1). destruct (f v s1) as [b s2|c s2| |]; auto; [lia|].
+  destruct Hf as [H|[H1 H2]]; [left; lia | right; split; [exact H1 | lia]].
+Qed.
+Lemma J_cap_guard C M fx n : J C M (cap_guard fx n).
+Proof. intros s. unfold cap_guard. destruct (_ && _); [left; lia | lia]. Qed.
+
+Lemma J_loopS C M {X} (cont : X -> bool) (body : X -> rd X) :
+  (forall x, J C M (body x)) -> forall fuel x, J C M (loopS fuel cont body x).
+Proof.
+  intros Hb. induction fuel as [|f IH]; intros x s; cbn [loopS]; destruct (cont x); try exact I; try lia.
+  specialize (Hb x s). destruct (body x s) as [x' s'|c s'| |]; auto.
+  specialize (IH x' s'). destruct (loopS f cont body x' s') as [y s2|c s2| |]; auto; [lia|].
+  destruct IH as [H|[H1 H2]]; [left; lia | right; split; [exact H1 | lia]].
+Qed.
+Lemma J_loop C M {X} (cont : X -> bool) (body : X -> rd X) x :
+  (forall x, J C M (body x)) -> J C M (loop cont body x).
+Proof. intros Hb s. unfold loop. now apply J_loopS. Qed.
+
+(** a larger rate is fine for a reader that never moves backwards *)
+Lemma J_mono C C' M {A} (r : rd A) : J C M r -> cons 0 r -> C <= C' -> J C' M r.
+Proof.
+  intros HJ Hc HC s. specialize (HJ s). specialize (Hc s). unfold psi, lenZ in *.
+  destruct (r s) as [a s1|c s1| |]; auto.
+  - assert ((C' - C) * Z.of_nat (length (s_rest s1)) <= (C' - C) * Z.of_nat (length (s_rest s))) by nia. lia.
+  - assert ((C' - C) * Z.of_nat (length (s_rest s1)) <= (C' - C) * Z.of_nat (length (s_rest s))) by nia.
+    destruct HJ as [H1|[H1 H2]]; [left; lia | right; split; [exact H1 | lia]].
+Qed.
+
+(** ** readers that do not allocate and fail only at the end of the input *)
+Definition rdonly (k : nat) {A} (r : rd A) : Prop := forall s,
+  match r s with
+  | ROk _ s' => s_alloc s' = s_alloc s /\ lenZ (s_rest s') + Z.of_nat k <= lenZ (s_rest s)
+  | RErr _ s' => s_alloc s' = s_alloc s /\ s_rest s' = []
+  | _ => True
+  end.
+
+Lemma rdonly_ret {A} (a : A) : rdonly 0 (ret a). Proof. intros s; cbn; lia. Qed.
+Lemma rdonly_read_n n k : Z.of_nat k <= Z.max 0 n -> rdonly k (read_n n).
+Proof.
+  intros Hk s. unfold read_n. destruct (n <=? 0) eqn:E0; [apply Z.leb_le in E0; cbn; lia|].
+  destruct (s_rest s) as [|x t] eqn:E.
+  - cbn [tick s_alloc s_rest]. auto.
+  - rewrite <- E. destruct (takeZ (s_rest s) n) as [[a r]|] eqn:T.
+    + apply takeZ_lenZ in T. cbn [set_rest tick s_alloc s_rest]. lia.
+    + cbn [set_rest tick s_alloc s_rest]. auto.
+Qed.
+Lemma rdonly_bind {A B} k1 k2 (r : rd A) (f : A -> rd B) :
+  rdonly k1 r -> (forall a, rdonly k2 (f a)) -> rdonly (k1 + k2) (bind r f).
+Proof.
+  intros Hr Hf s. unfold bind. specialize (Hr s). destruct (r s) as [a s1|c s1| |]; auto.
+  specialize (Hf a s1). destruct (f a s1) as [b s2|c s2| |]; auto.
+  - rewrite Nat2Z.inj_add. lia.
+  - destruct Hf, Hr. split; [congruence | assumption].
+Qed.
+Lemma rdonly_read_le n k : Z.of_nat k <= Z.max 0 n -> rdonly k (read_le n).
+Proof. intros. replace k with (k + 0)%nat by lia. apply rdonly_bind; [now apply rdonly_read_n | intros; apply rdonly_ret]. Qed.
+Lemma rdonly_read_be n k : Z.of_nat k <= Z.max 0 n -> rdonly k (read_be n).
+Proof. intros. replace k with (k + 0)%nat by lia. apply rdonly_bind; [now apply rdonly_read_n | intros; apply rdonly_ret]. Qed.
+Lemma rdonly_loopS {X} (cont : X -> bool) (body : X -> rd X) :
+  (forall x, rdonly 0 (body x)) -> forall fuel x, rdonly 0 (loopS fuel cont body x).
+Proof.
+  intros Hb. induction fuel as [|f IH]; intros x s; cbn [loopS]; destruct (cont x); try exact I; try (cbn; lia).
+  specialize (Hb x s). destruct (body x s) as [x' s'|c s'| |]; auto.
+  specialize (IH x' s'). destruct (loopS f cont body x' s') as [y s2|c s2| |]; auto.
+  - lia.
+  - destruct IH, Hb. split; [congruence | assumption].
+Qed.
+
+Lemma rdonly_sel_loop n : rdonly 0 (sel_loop n).
+Proof.
+  unfold sel_loop. apply (rdonly_bind 0 0); [|intros; apply rdonly_ret].
+  intros s. unfold loop. apply rdonly_loopS. intros x.
+  apply (rdonly_bind 0 0); [apply rdonly_read_be; lia | intros; apply rdonly_ret].
+Qed.
+Lemma rdonly_pcr_info : rdonly 23 pcr_info.
+Proof.
+  unfold pcr_info. apply (rdonly_bind 2 21); [apply rdonly_read_be; lia | intros ss].
+  apply (rdonly_bind 0 21); [apply rdonly_sel_loop | intros sel].
+  apply (rdonly_bind 1 20); [apply rdonly_read_be; lia | intros loc].
+  apply (rdonly_bind 20 0); [apply rdonly_read_n; lia | intros; apply rdonly_ret].
+Qed.
+
+Lemma rdonly_repeat_loopS k (b : rd (list Z)) : rdonly k b -> forall fuel st s,
+  match loopS fuel (fun st : Z * list Z => 0 <? fst st)
+                   (fun st => a <- b ;; ret (fst st - 1, rev_append a (snd st))) st s with
+  | ROk _ s' => s_alloc s' = s_alloc s /\ lenZ (s_rest s') + Z.of_nat k * Z.max 0 (fst st) <= lenZ (s_rest s)
+  | RErr _ s' => s_alloc s' = s_alloc s /\ s_rest s' = []
+  | _ => True
+  end.
+Proof.
+  intros Hb. induction fuel as [|f IH]; intros st s; cbn [loopS]; destruct (0 <? fst st) eqn:E; try exact I.
+  - apply Z.ltb_ge in E. rewrite Z.max_l by lia. split; [reflexivity | lia].
+  - apply Z.ltb_lt in E. unfold bind at 1. specialize (Hb s). destruct (b s) as [a s1|c s1| |]; auto.
+    cbn [ret]. specialize (IH (fst st - 1, rev_append a (snd st)) s1). cbn [fst] in IH.
+    destruct (loopS f _ _ _ s1) as [y s2|c s2| |]; auto.
+    + destruct IH as [I1 I2], Hb as [B1 B2]. split; [congruence|].
+      rewrite Z.max_r in I2 by lia. rewrite Z.max_r by lia. nia.
+    + destruct IH, Hb. split; [congruence | assumption].
+  - apply Z.ltb_ge in E. rewrite Z.max_l by lia. split; [reflexivity | lia].
+Qed.
+Lemma rdonly_repeat_n k (b : rd (list Z)) n : rdonly k b -> forall s,
+  match repeat_n n b s with
+  | ROk _ s' => s_alloc s' = s_alloc s /\ lenZ (s_rest s') + Z.of_nat k * Z.max 0 n <= lenZ (s_rest s)
+  | RErr _ s' => s_alloc s' = s_alloc s /\ s_rest s' = []
+  | _ => True
+  end.
+Proof.
+  intros Hb s. unfold repeat_n, bind, loop.
+  pose proof (rdonly_repeat_loopS k b Hb (S (length (s_rest s))) (n, []) s) as H. cbn [fst] in H.
+  destruct (loopS _ _ _ (n, []) s) as [y s2|c s2| |]; auto.
+Qed.
+
+(** [make([]T, n)] followed by n reads of at least k bytes each *)
+Lemma J_alloc_repeat C M n e k (b : rd (list Z)) {B} (f : list Z -> rd B) :
+  0 <= C -> rdonly k b -> 0 <= e <= C * Z.of_nat k -> Z.max 0 n * e <= M ->
+  (forall a, J C M (f a)) ->
+  J C M (bind (alloc n e) (fun _ => bind (repeat_n n b) f)).
+Proof.
+  intros HC Hb He HM Hf s. unfold bind at 1. unfold alloc. unfold bind.
+  pose proof (rdonly_repeat_n k b n Hb (add_alloc s (Z.max 0 n * e))) as HR.
+  destruct (repeat_n n b (add_alloc s (Z.max 0 n * e))) as [a s2|c s2| |]; auto.
+  - destruct HR as [HA HL]. cbn [add_alloc s_alloc s_rest] in HA, HL.
+    assert (P2 : psi C s2 <= psi C s).
+    { unfold psi. rewrite HA. pose proof (lenZ_nonneg (s_rest s2)).
+      assert (Z.max 0 n * e <= C * (Z.of_nat k * Z.max 0 n)) by nia.
+      assert (C * (lenZ (s_rest s2) + Z.of_nat k * Z.max 0 n) <= C * lenZ (s_rest s)) by nia. lia. }
+    specialize (Hf a s2). destruct (f a s2) as [x s3|c s3| |]; auto; [lia|].
+    destruct Hf as [H|[H1 H2]]; [left; lia | right; split; [exact H1 | lia]].
+  - destruct HR as [HA HE]. cbn [add_alloc s_alloc s_rest] in HA. right. split; [exact HE|].
+    unfold psi. rewrite HA, HE. change (lenZ []) with 0. pose proof (lenZ_nonneg (s_rest s)). nia.
+Qed.
+
+(** [make([]byte, n)] followed by [binary.Read] into it (one more scratch buffer) *)
+Lemma J_alloc_slice C M n {B} (f : list Z -> rd B) :
+  2 <= C -> 2 * Z.max 0 n <= M -> (forall a, J C M (f a)) ->
+  J C M (bind (alloc n 1) (fun _ => bind (read_slice n) f)).
+Proof.
+  intros HC HM Hf s. unfold bind at 1. unfold alloc. unfold bind, read_slice.
+  destruct (n <=? 0) eqn:E0.
+  - apply Z.leb_le in E0. cbn [ret]. specialize (Hf [] (add_alloc s (Z.max 0 n * 1))).
+    assert (P : psi C (add_alloc s (Z.max 0 n * 1)) = psi C s).
+    { unfold psi. cbn [add_alloc s_alloc s_rest]. rewrite Z.max_l by lia. lia. }
+    rewrite P in Hf. exact Hf.
+  - apply Z.leb_gt in E0. unfold bind, alloc, read_n. destruct (n <=? 0) eqn:E1; [apply Z.leb_le in E1; lia|].
+    cbn [add_alloc s_rest tick set_rest s_alloc s_steps].
+    pose proof (lenZ_nonneg (s_rest s)) as HL.
+    destruct (s_rest s) as [|x t] eqn:E.
+    + right. unfold psi. cbn [add_alloc s_rest tick set_rest s_alloc s_steps]. rewrite E.
+      split; [reflexivity|]. change (lenZ []) with 0. rewrite Z.max_r by lia. lia.
+    + rewrite <- E in *. destruct (takeZ (s_rest s) n) as [[a r]|] eqn:T.
+      * apply takeZ_lenZ in T. rewrite Z.max_r in T by lia.
+        match goal with |- match f a ?s2 with _ => _ end => specialize (Hf a s2);
+          assert (P : psi C s2 <= psi C s) end.
+        { unfold psi. cbn [add_alloc s_rest tick set_rest s_alloc s_steps]. rewrite Z.max_r by lia.
+          pose proof (lenZ_nonneg r). nia. }
+        destruct (f a _) as [y s3|c s3| |]; auto; [lia|].
+        destruct Hf as [H|[H1 H2]]; [left; lia | right; split; [exact H1 | lia]].
+      * right. unfold psi. cbn [add_alloc s_rest tick set_rest s_alloc s_steps].
+        split; [reflexivity|]. change (lenZ []) with 0. rewrite Z.max_r by lia. nia.
+Qed.
+
+Lemma has_len_takeZ : forall l n, has_len l n = true -> exists a r, takeZ l n = Some (a, r).
+Proof.
+  induction l as [|x t IH]; intros n H; cbn [has_len takeZ] in *.
+  - destruct (n <=? 0); [eauto | discriminate].
+  - destruct (n <=? 0); [eauto|]. destruct (IH _ H) as (a & r & E). rewrite E. eauto.
+Qed.
+
+(** the custom element with the size guard: the data length is at most what is left *)
+Lemma J_custom C M fx n {B} (f : list Z -> rd B) :
+  2 <= C -> fx_cap fx = true -> (forall a, J C M (f a)) ->
+  J C M (bind (cap_guard fx n) (fun _ => bind (alloc_chk n 1) (fun _ => bind (read_slice n) f))).
+Proof.
+  intros HC Hfx Hf s. unfold bind at 1. unfold cap_guard. rewrite Hfx. cbn [andb].
+  destruct (has_len (s_rest s) n) eqn:HL; cbn [negb]; [|left; lia].
+  unfold bind at 1. unfold alloc_chk. destruct (n <? 0) eqn:En; [exact I|]. apply Z.ltb_ge in En.
+  unfold bind, read_slice. destruct (n <=? 0) eqn:E0.
+  - apply Z.leb_le in E0. cbn [ret]. specialize (Hf [] (add_alloc s (n * 1))).
+    assert (P : psi C (add_alloc s (n * 1)) = psi C s).
+    { unfold psi. cbn [add_alloc s_alloc s_rest]. lia. }
+    rewrite P in Hf. exact Hf.
+  - apply Z.leb_gt in E0. unfold bind, alloc, read_n. destruct (n <=? 0) eqn:E1; [apply Z.leb_le in E1; lia|].
+    cbn [add_alloc s_rest tick set_rest s_alloc s_steps].
+    destruct (has_len_takeZ _ _ HL) as (a & r & T). rewrite T.
+    destruct (s_rest s) as [|x t] eqn:E; [cbn [has_len] in HL; rewrite E1 in HL; discriminate|].
+    rewrite <- E in *. apply takeZ_lenZ in T. rewrite Z.max_r in T by lia.
+    match goal with |- match f a ?s2 with _ => _ end => specialize (Hf a s2);
+      assert (P : psi C s2 <= psi C s) end.
+    { unfold psi. cbn [add_alloc s_rest tick set_rest s_alloc s_steps]. rewrite Z.max_r by lia.
+      pose proof (lenZ_nonneg r). nia. }
+    destruct (f a _) as [y s3|c s3| |]; auto; [lia|].
+    destruct Hf as [H|[H1 H2]]; [left; lia | right; split; [exact H1 | lia]].
+Qed.
+
+(** ** the elements *)
+Definition M0 : Z := 3145680.  (* 65535 PCR infos of 48 bytes *)
+
+Ltac jj := repeat first
+  [ apply J_ret | apply J_fail | (apply J_read_n; lia) | (apply J_read_le; lia) | (apply J_read_be; lia)
+  | apply J_cap_guard
+  | match goal with |- J _ _ (bind (read_le _) _) => apply J_bind; [apply J_read_le; lia | intros ?] end
+  | match goal with |- J _ _ (bind (read_be _) _) => apply J_bind; [apply J_read_be; lia | intros ?] end
+  | match goal with |- J _ _ (bind (read_n _) _) => apply J_bind; [apply J_read_n; lia | intros ?] end ].
+
+Ltac j1 := first
+  [ match goal with |- J _ _ (bind (read_le _) _) => apply J_bind; [apply J_read_le; lia | intros ?] end
+  | match goal with |- J _ _ (bind (read_be _) _) => apply J_bind; [apply J_read_be; lia | intros ?] end
+  | match goal with |- J _ _ (bind (read_n _) _) => apply J_bind; [apply J_read_n; lia | intros ?] end ].
+
+Lemma pow256_1 : 256 ^ Z.max 0 1 = 256. Proof. reflexivity. Qed.
+Lemma pow256_2 : 256 ^ Z.max 0 2 = 65536. Proof. reflexivity. Qed.
+
+Lemma J_elt_mle : J 3 M0 elt_mle.
+Proof.
+  unfold elt_mle. do 2 j1. apply J_bind_le; [lia|]. intros n Hn. rewrite pow256_2 in Hn.
+  apply (J_alloc_repeat 3 M0 n 20 20); [lia | apply rdonly_read_n; lia | lia | unfold M0; lia | intros; apply J_ret].
+Qed.
+Lemma J_elt_sbios : J 3 M0 elt_sbios.
+Proof.
+  unfold elt_sbios, lcp_hash. apply J_bind; [apply J_read_le; lia | intros ha].
+  destruct (ha =? 0).
+  - do 3 j1. apply J_bind_le; [lia|]. intros n Hn. rewrite pow256_2 in Hn.
+    apply (J_alloc_repeat 3 M0 n 40 20); [lia | apply rdonly_read_n; lia | lia | unfold M0; lia | intros; apply J_ret].
+  - j1. apply J_bind_fail.
+Qed.
+Lemma J_elt_pconf : J 3 M0 elt_pconf.
+Proof.
+  unfold elt_pconf. apply J_bind_le; [lia|]. intros n Hn. rewrite pow256_2 in Hn.
+  apply (J_alloc_repeat 3 M0 n 48 23); [lia | apply rdonly_pcr_info | lia | unfold M0; lia | intros; apply J_ret].
+Qed.
+Lemma J_elt_custom fx size : fx_cap fx = true -> J 3 M0 (elt_custom fx size).
+Proof.
+  intros Hfx. unfold elt_custom. do 5 j1. destruct (_ && _); [apply J_fail|].
+  apply J_custom; [lia | exact Hfx | intros; apply J_ret].
+Qed.
+Lemma J_element fx : fx_cap fx = true -> J 3 M0 (element fx).
+Proof.
+  intros Hfx. unfold element. do 3 j1. apply J_bind; [|intros; apply J_ret].
+  repeat match goal with |- J _ _ (if ?b then _ else _) => destruct b end;
+    first [apply J_elt_mle | apply J_elt_sbios | apply J_elt_pconf | now apply J_elt_custom | apply J_fail].
+Qed.
+Lemma J_lcp_signature : J 3 M0 lcp_signature.
+Proof.
+  unfold lcp_signature. j1. apply J_bind_le; [lia|]. intros ks Hk. rewrite pow256_2 in Hk.
+  apply J_alloc_slice; [lia | unfold M0; lia | intros pk].
+  apply J_alloc_slice; [lia | unfold M0; lia | intros; apply J_ret].
+Qed.
+Lemma J_policy_list1 fx : fx_cap fx = true -> J 3 M0 (policy_list1 fx).
+Proof.
+  intros Hfx. unfold policy_list1. do 4 j1. apply J_bind.
+  - unfold list1_loop. apply J_bind; [|intros; apply J_ret]. apply J_loop. intros x.
+    apply J_bind; [now apply J_element | intros; apply J_ret].
+  - intros ce. apply J_bind; [|intros; apply J_ret].
+    repeat match goal with |- J _ _ (if ?b then _ else _) => destruct b end;
+      first [apply J_ret | apply J_fail | idtac].
+    apply J_bind; [apply J_lcp_signature | intros; apply J_ret].
+Qed.
+
+(** ** consumption of an element: the 12-byte header *)
+Lemma cons_read_n_k n k : Z.of_nat k <= Z.max 0 n -> cons k (read_n n).
+Proof.
+  intros Hk s. pose proof (rdonly_read_n n k Hk s) as H. destruct (read_n n s) as [a s1|c s1| |]; auto.
+  - unfold lenZ in H. lia.
+  - destruct H as [_ H]. rewrite H. cbn. lia.
+Qed.
+Lemma cons_read_le_k n k : Z.of_nat k <= Z.max 0 n -> cons k (read_le n).
+Proof. intros. replace k with (k + 0)%nat by lia. apply cons_bind; [now apply cons_read_n_k | intros; apply cons_ret]. Qed.
+Lemma cons12_element fx : cons 12 (element fx).
+Proof.
+  unfold element. apply (cons_bind 4 8); [apply cons_read_le_k; lia | intros ?].
+  apply (cons_bind 4 4); [apply cons_read_le_k; lia | intros ?].
+  apply (cons_bind 4 0); [apply cons_read_le_k; lia | intros ?].
+  c0; first [apply cons_elt_mle | apply cons_elt_sbios | apply cons_elt_pconf | apply cons_elt_custom].
+Qed.
+
+(** ** the list level: [JT C M K]: as [J], but a failing run may leave
+    [K + M + 48 x bytes left at the start] unpaid (parsePolicyList2 reserves 48
+    bytes per announced element, at most one per byte left, and its failure ends
+    ParsePolicyData) *)
+Definition JT (C M K : Z) {A} (r : rd A) : Prop := forall s,
+  match r s with
+  | ROk _ s' => psi C s' <= psi C s + K
+  | RErr _ s' => psi C s' <= psi C s + K + M + 48 * lenZ (s_rest s)
+  | _ => True
+  end.
+
+Lemma J_JT C M {A} (r : rd A) : 0 <= M -> J C M r -> JT C M 0 r.
+Proof.
+  intros HM HJ s. specialize (HJ s). pose proof (lenZ_nonneg (s_rest s)).
+  destruct (r s) as [a s1|c s1| |]; auto; [lia|]. destruct HJ as [H1|[_ H1]]; lia.
+Qed.
+
+Lemma JT_bind C M K {A B} (r : rd A) (f : A -> rd B) :
+  0 <= M -> 0 <= K -> J C M r -> cons 0 r -> (forall a, JT C M K (f a)) -> JT C M K (bind r f).
+Proof.
+  intros HM HK Hr Hc Hf s. unfold bind. specialize (Hr s). specialize (Hc s).
+  pose proof (lenZ_nonneg (s_rest s)).
+  destruct (r s) as [a s1|c s1| |]; auto.
+  - specialize (Hf a s1). destruct (f a s1) as [b s2|c s2| |]; auto; [lia|]. unfold lenZ in *. lia.
+  - destruct Hr as [H1|[_ H1]]; lia.
+Qed.
+Lemma JT_bind_le C M K {B} n (f : Z -> rd B) : 0 <= C -> 0 <= M -> 0 <= K ->
+  (forall v, 0 <= v < 256 ^ Z.max 0 n -> JT C M K (f v)) -> JT C M K (bind (read_le n) f).
+Proof.
+  intros HC HM HK Hf s. unfold bind. pose proof (J_read_le C M n HC s) as Hr.
+  pose proof (cons_read_le0 n s) as Hc. pose proof (lenZ_nonneg (s_rest s)).
+  destruct (read_le n s) as [v s1|c s1| |] eqn:E; auto.
+  - apply read_le_value in E. specialize (Hf v E s1). destruct (f v s1) as [b s2|c s2| |]; auto; [lia|].
+    unfold lenZ in *. lia.
+  - destruct Hr as [H1|[_ H1]]; lia.
+Qed.
+
+Lemma J_repeat_loopS C M k (b : rd (list Z)) : J C M b -> cons k b -> forall fuel st s,
+  match loopS fuel (fun st : Z * list Z => 0 <? fst st)
+                   (fun st => a <- b ;; ret (fst st - 1, rev_append a (snd st))) st s with
+  | ROk _ s' => psi C s' <= psi C s /\ lenZ (s_rest s') + Z.of_nat k * Z.max 0 (fst st) <= lenZ (s_rest s)
+  | RErr _ s' => (psi C s' <= psi C s \/ (s_rest s' = [] /\ psi C s' <= psi C s + M)) /\
+                 lenZ (s_rest s') <= lenZ (s_rest s)
+  | _ => True
+  end.
+Proof.
+  intros Hb Hc. induction fuel as [|f IH]; intros st s; cbn [loopS]; destruct (0 <? fst st) eqn:E; try exact I.
+  - apply Z.ltb_ge in E. rewrite Z.max_l by lia. lia.
+  - apply Z.ltb_lt in E. unfold bind at 1. specialize (Hb s). specialize (Hc s).
+    destruct (b s) as [a s1|c s1| |]; auto; [|unfold lenZ; split; [exact Hb | lia]].
+    cbn [ret]. specialize (IH (fst st - 1, rev_append a (snd st)) s1). cbn [fst] in IH.
+    destruct (loopS f _ _ _ s1) as [y s2|c s2| |]; auto.
+    + destruct IH as [I1 I2]. split; [lia|]. rewrite Z.max_r in I2 by lia. rewrite Z.max_r by lia.
+      unfold lenZ in *. nia.
+    + destruct IH as [I1 I2]. split; [|unfold lenZ in *; lia].
+      destruct I1 as [H|[H1 H2]]; [left; lia | right; split; [exact H1 | lia]].
+  - apply Z.ltb_ge in E. rewrite Z.max_l by lia. lia.
+Qed.
+
+Lemma policy_list2_eof fx s : s_rest s = [] -> exists c, policy_list2 fx s = RErr c (tick s).
+Proof.
+  intros H. unfold policy_list2, bind, read_le, bind, read_n. change (2 <=? 0) with false. cbv iota.
+  rewrite H. eauto.
+Qed.
+
+Lemma JT_policy_list2 fx : fx_cap fx = true -> JT 7 M0 0 (policy_list2 fx).
+Proof.
+  intros Hfx. unfold policy_list2.
+  apply JT_bind; [unfold M0; lia | lia | apply J_read_le; lia | apply cons_read_le0 | intros ver].
+  apply JT_bind; [unfold M0; lia | lia | apply J_read_le; lia | apply cons_read_le0 | intros sa].
+  apply JT_bind; [unfold M0; lia | lia | apply J_read_le; lia | apply cons_read_le0 | intros cnt].
+  intros s. unfold bind at 1. unfold cap_guard. rewrite Hfx. cbn [andb].
+  pose proof (lenZ_nonneg (s_rest s)) as HL0.
+  destruct (has_len (s_rest s) cnt) eqn:HL; cbn [negb]; [|unfold M0; lia].
+  apply has_len_true in HL. unfold bind at 1. unfold alloc. unfold bind, repeat_n, bind, loop.
+  assert (JB : J 3 M0 (x <- element fx;; ret (snd x))) by (apply J_bind; [now apply J_element | intros; apply J_ret]).
+  assert (CB : cons 12 (x <- element fx;; ret (snd x))) by (apply (cons_bind 12 0); [apply cons12_element | intros; apply cons_ret]).
+  pose proof (J_repeat_loopS 3 M0 12 _ JB CB (S (length (s_rest (add_alloc s (Z.max 0 cnt * 48)))))
+                (cnt, []) (add_alloc s (Z.max 0 cnt * 48))) as HR.
+  cbn [fst add_alloc s_rest] in HR. cbn [add_alloc s_rest].
+  destruct (loopS _ _ _ (cnt, []) _) as [y s2|c s2| |]; auto; cbn [ret].
+  - destruct HR as [P L]. unfold psi in *. cbn [add_alloc s_alloc s_rest] in *. change (Z.of_nat 12) with 12 in L.
+    pose proof (lenZ_nonneg (s_rest s2)). lia.
+  - destruct HR as [P L]. unfold psi in *. cbn [add_alloc s_alloc s_rest] in *. pose proof (lenZ_nonneg (s_rest s2)).
+    unfold M0 in *. destruct P as [P|[_ P]]; lia.
+Qed.
+
+Lemma JT_or_else C M {A} (r h : rd A) : 0 <= M ->
+  J C M r -> cons 0 r -> JT C M 0 h ->
+  (forall s, s_rest s = [] -> exists c, h s = RErr c (tick s)) -> JT C M 0 (or_else r h).
+Proof.
+  intros HM Hr Hc Hh Heof s. unfold or_else. specialize (Hr s). specialize (Hc s).
+  pose proof (lenZ_nonneg (s_rest s)).
+  destruct (r s) as [a s1|c s1| |]; auto; [lia|].
+  destruct Hr as [P|[E P]].
+  - specialize (Hh s1). destruct (h s1) as [b s2|c2 s2| |]; auto; [lia|]. unfold lenZ in *. lia.
+  - destruct (Heof s1 E) as [c2 E2]. rewrite E2. unfold psi in *. cbn [tick s_alloc s_rest]. lia.
+Qed.
+
+Lemma JT_lists_loopS C M (B : rd (list Z)) : JT C M 0 B -> cons 0 B -> forall fuel st s,
+  match loopS fuel (fun st : Z * list Z => 0 <? fst st)
+                   (fun st => a <- B ;; ret (fst st - 1, rev_append a (snd st))) st s with
+  | ROk _ s' => psi C s' <= psi C s /\ lenZ (s_rest s') <= lenZ (s_rest s)
+  | RErr _ s' => psi C s' <= psi C s + M + 48 * lenZ (s_rest s)
+  | _ => True
+  end.
+Proof.
+  intros Hb Hc. induction fuel as [|f IH]; intros st s; cbn [loopS]; destruct (0 <? fst st) eqn:E; try exact I; try lia.
+  unfold bind at 1. specialize (Hb s). specialize (Hc s).
+  destruct (B s) as [a s1|c s1| |]; auto; [|lia].
+  cbn [ret]. specialize (IH (fst st - 1, rev_append a (snd st)) s1).
+  destruct (loopS f _ _ _ s1) as [y s2|c s2| |]; auto; unfold lenZ in *; lia.
+Qed.
+
+Theorem policy_data_alloc fx d : fx_cap fx = true ->
+  res_alloc (run (policy_data fx) d) <= 55 * lenZ d + 3164040.
+Proof.
+  intros Hfx.
+  assert (HT : JT 7 M0 18360 (policy_data fx)).
+  { unfold policy_data.
+    apply JT_bind; [unfold M0; lia | lia | apply J_read_n; lia | apply cons_read_n0 | intros sg].
+    apply JT_bind; [unfold M0; lia | lia | apply J_read_n; lia | apply cons_read_n0 | intros rs].
+    apply JT_bind_le; [lia | unfold M0; lia | lia | intros n Hn]. rewrite pow256_1 in Hn.
+    intros s. unfold bind at 1. unfold alloc. unfold bind, repeat_n, bind, loop.
+    assert (HB : JT 7 M0 0 (or_else (policy_list1 fx) (policy_list2 fx))).
+    { apply JT_or_else; [unfold M0; lia | | | now apply JT_policy_list2 | apply policy_list2_eof].
+      - apply (J_mono 3 7); [now apply J_policy_list1 | | lia].
+        eapply cons_weaken; [apply cons1_policy_list1 | lia].
+      - eapply cons_weaken; [apply cons1_policy_list1 | lia]. }
+    assert (CB : cons 0 (or_else (policy_list1 fx) (policy_list2 fx))).
+    { apply cons_or_else; eapply cons_weaken; first [apply cons1_policy_list1 | apply cons1_policy_list2 | lia]. }
+    pose proof (JT_lists_loopS 7 M0 _ HB CB (S (length (s_rest (add_alloc s (Z.max 0 n * 72)))))
+                  (n, []) (add_alloc s (Z.max 0 n * 72))) as HR.
+    cbn [add_alloc s_rest] in HR. cbn [add_alloc s_rest].
+    destruct (loopS _ _ _ (n, []) _) as [y s2|c s2| |]; auto; cbn [ret];
+      unfold psi in *; cbn [add_alloc s_alloc s_rest] in *; lia. }
+  unfold run. specialize (HT (mkSt d 0 0)). unfold psi in HT. cbn [s_alloc s_rest] in HT.
+  destruct (policy_data fx (mkSt d 0 0)) as [a s|c s| |]; cbn [res_alloc]; try (pose proof (lenZ_nonneg d); lia);
+    pose proof (lenZ_nonneg (s_rest s)); pose proof (lenZ_nonneg d); unfold M0 in *; lia.
+Qed.
+
+
+(** * Allocation of ParseACMInfo with the size guards
+
+    [AB T K r]: started with at most [T] bytes in the reader, [r] allocates at
+    most [K] bytes and leaves at most [T] bytes in the reader (the decoder seeks
+    back and forth inside the module, whose size is at most [T]). *)
+Definition AB (T K : Z) {A} (r : rd A) : Prop := forall s, lenZ (s_rest s) <= T ->
+  match r s with
+  | ROk _ s' | RErr _ s' => s_alloc s' <= s_alloc s + K /\ lenZ (s_rest s') <= T
+  | _ => True
+  end.
+
+Lemma AB_weaken T K K' {A} (r : rd A) : AB T K r -> K <= K' -> AB T K' r.
+Proof. intros H HK s Hs. specialize (H s Hs). destruct (r s); auto; lia. Qed.
+Lemma AB_ret T {A} (a : A) : AB T 0 (ret a). Proof. intros s Hs; cbn; lia. Qed.
+Lemma AB_bind T K1 K2 {A B} (r : rd A) (f : A -> rd B) :
+  0 <= K2 -> AB T K1 r -> (forall a, AB T K2 (f a)) -> AB T (K1 + K2) (bind r f).
+Proof.
+  intros HK Hr Hf s Hs. unfold bind. specialize (Hr s Hs). destruct (r s) as [a s1|c s1| |]; auto; [|lia].
+  destruct Hr as [H1 H2]. specialize (Hf a s1 H2). destruct (f a s1); auto; lia.
+Qed.
+Lemma AB_read_n T n : 0 <= T -> AB T 0 (read_n n).
+Proof.
+  intros HT s Hs. unfold read_n. destruct (n <=? 0); [cbn; lia|].
+  destruct (s_rest s) as [|x t] eqn:E.
+  - cbn [tick s_alloc s_rest]. rewrite E. change (lenZ []) with 0. lia.
+  - rewrite <- E in *. destruct (takeZ (s_rest s) n) as [[a r]|] eqn:T1; cbn [set_rest tick s_alloc s_rest].
+    + apply takeZ_some in T1. unfold lenZ in *. lia.
+    + change (lenZ []) with 0. lia.
+Qed.
+Lemma AB_read_le T n : 0 <= T -> AB T 0 (read_le n).
+Proof. intros. apply (AB_bind T 0 0); [lia | now apply AB_read_n | intros; apply AB_ret]. Qed.
+Lemma AB_seek T w o : lenZ w <= T -> AB T 0 (seek w o).
+Proof.
+  intros Hw s Hs. unfold seek. cbn [set_rest s_alloc s_rest]. pose proof (dropZ_length w o). unfold lenZ in *. lia.
+Qed.
+Lemma AB_alloc T n e : AB T (Z.max 0 n * e) (alloc n e).
+Proof. intros s Hs. unfold alloc. cbn [add_alloc s_alloc s_rest]. lia. Qed.
+Lemma AB_read_slice T n : 0 <= T -> AB T (Z.max 0 n) (read_slice n).
+Proof.
+  intros HT. unfold read_slice. destruct (n <=? 0) eqn:E.
+  - eapply AB_weaken; [apply AB_ret | lia].
+  - replace (Z.max 0 n) with (Z.max 0 n * 1 + 0) by lia.
+    apply AB_bind; [lia | apply AB_alloc | intros; now apply AB_read_n].
+Qed.
+
+Lemma AB_bind_le T K n {B} (f : Z -> rd B) : 0 <= T -> 0 <= K ->
+  (forall v, 0 <= v < 256 ^ Z.max 0 n -> AB T K (f v)) -> AB T K (bind (read_le n) f).
+Proof.
+  intros HT HK Hf s Hs. unfold bind. pose proof (AB_read_le T n HT s Hs) as HR.
+  destruct (read_le n s) as [v s1|c s1| |] eqn:E; auto; [|lia].
+  apply read_le_value in E. destruct HR as [R1 R2]. specialize (Hf v E s1 R2). destruct (f v s1); auto; lia.
+Qed.
+
+(** [if count*elem > buf.Len() { return error }; make([]T, count); binary.Read] *)
+Lemma AB_capped T K fx c e {B} (f : list Z -> rd B) :
+  fx_cap fx = true -> 0 < e -> 0 <= T -> 0 <= K -> (forall l, AB T K (f l)) ->
+  AB T (2 * T + K) (bind (cap_guard fx (c * e)) (fun _ => bind (alloc c e) (fun _ => bind (read_slice (c * e)) f))).
+Proof.
+  intros Hfx He HT HK Hf s Hs. unfold bind at 1. unfold cap_guard. rewrite Hfx. cbn [andb].
+  destruct (has_len (s_rest s) (c * e)) eqn:HL; cbn [negb]; [|lia].
+  apply has_len_true in HL.
+  assert (HA : Z.max 0 c * e <= T) by nia.
+  assert (HB : Z.max 0 (c * e) <= T) by lia.
+  pose proof (AB_bind T (Z.max 0 c * e) (Z.max 0 (c * e) + K) (alloc c e) (fun _ => bind (read_slice (c * e)) f)
+                ltac:(lia) (AB_alloc T c e)
+                (fun _ => AB_bind T _ K _ f HK (AB_read_slice T (c * e) HT) Hf) s Hs) as H.
+  destruct (bind (alloc c e) _ s); auto; lia.
+Qed.
+
+Theorem acm_info_alloc fx total user : fx_cap fx = true ->
+  res_alloc (run (acm_info fx total) user) <= 5 * Z.max (lenZ user) (lenZ total) + 262140.
+Proof.
+  intros Hfx. set (T := Z.max (lenZ user) (lenZ total)).
+  assert (HT : 0 <= T) by (unfold T, lenZ; lia).
+  assert (HW : lenZ total <= T) by (unfold T; lia).
+  assert (H : AB T (5 * T + 262140) (acm_info fx total)).
+  { unfold acm_info. cbv zeta.
+    replace (5 * T + 262140) with (0 + (Z.max 0 (lenZ total) * 1 + (0 + (0 + (2 * T + (0 + (0 + (2 * T + (4 * T - Z.max 0 (lenZ total) * 1 - 4 * T + T + 262140))))))))) by lia.
+    apply AB_bind; [unfold lenZ in *; lia | now apply AB_read_n | intros info].
+    apply AB_bind; [unfold lenZ in *; lia | apply AB_alloc | intros _].
+    apply AB_bind; [unfold lenZ in *; lia | now apply AB_seek | intros _].
+    apply AB_bind; [unfold lenZ in *; lia | now apply AB_read_le | intros c1].
+    apply AB_capped; [exact Hfx | lia | exact HT | unfold lenZ in *; lia | intros l1].
+    apply AB_bind; [unfold lenZ in *; lia | now apply AB_seek | intros _].
+    apply AB_bind; [unfold lenZ in *; lia | now apply AB_read_le | intros c2].
+    apply AB_capped; [exact Hfx | lia | exact HT | unfold lenZ in *; lia | intros l2].
+    eapply AB_weaken; [|instantiate (1 := 0 + (0 + (131070 + 131070))); unfold lenZ in *; lia].
+    apply AB_bind; [lia | now apply AB_seek | intros _].
+    apply AB_bind; [lia | now apply AB_read_le | intros caps].
+    apply AB_bind_le; [exact HT | lia | intros c3 Hc3]. change (256 ^ Z.max 0 2) with 65536 in Hc3.
+    apply (AB_weaken T (Z.max 0 c3 * 2 + (Z.max 0 (c3 * 2) + 0))); [|lia].
+    apply AB_bind; [lia | apply AB_alloc | intros _].
+    apply AB_bind; [lia | now apply AB_read_slice | intros; apply AB_ret]. }
+  unfold run. specialize (H (mkSt user 0 0)). cbn [s_rest s_alloc] in H.
+  assert (HU : lenZ user <= T) by (unfold T; lia). specialize (H HU).
+  destruct (acm_info fx total (mkSt user 0 0)); cbn [res_alloc]; lia.
+Qed.
+
+
+(** * The statements of Props/C15.v *)
+
+Lemma cost_total_run {A} K (r : rd A) i : 0 <= K -> nopanic r -> nofuel r -> cost K r ->
+  value_or_error (run r i) /\ res_steps (run r i) <= K /\ res_alloc (run r i) = 0.
+Proof. intros HK H1 H2 H3. split; [now apply voe_run | now apply cost_run]. Qed.
+
+Lemma P_parse_policy : forall sha3 d,
+  value_or_error (run (parse_policy sha3 d) d) /\ res_steps (run (parse_policy sha3 d) d) <= 15 /\
+  res_alloc (run (parse_policy sha3 d) d) = 0.
+Proof.
+  intros. apply cost_total_run; [lia | apply parse_policy_nopanic | apply parse_policy_nofuel | apply parse_policy_cost].
+Qed.
+
+Lemma P_policy_data_terminates : forall fx d,
+  run (policy_data fx) d <> RFuel /\ res_steps (run (policy_data fx) d) <= lenZ d + 256.
+Proof. intros. split; [apply policy_data_nofuel | apply policy_data_steps]. Qed.
+
+Lemma P_policy_data_refuted : exists d, lenZ d = 80 /\ run (policy_data faithful) d = RPanic.
+Proof. exists (custom_witness [20; 0; 0; 0]). split; [reflexivity | exact policy_data_panics]. Qed.
+
+Lemma P_policy_data_partial : forall fx d, fx_custom_min fx = true -> value_or_error (run (policy_data fx) d).
+Proof. intros fx d H. apply voe_run; [now apply policy_data_nopanic | apply policy_data_nofuel]. Qed.
+
+Lemma P_policy_data_panic_site :
+  (forall size s, elt_custom faithful size s = RPanic -> size < 32) /\
+  (forall fx, (forall size, nopanic (elt_custom fx size)) -> forall d, run (policy_data fx) d <> RPanic).
+Proof. split; [exact elt_custom_panic_size | intros fx H d; now apply nopanic_policy_data_g]. Qed.
+
+Lemma P_policy_data_fix_conservative : forall d,
+  run (policy_data faithful) d = RPanic \/ run (policy_data faithful) d = run (policy_data fix_custom) d.
+Proof. intros d. apply policy_data_fix_conservative. Qed.
+
+Lemma P_policy_data_alloc_refuted : exists d, lenZ d = 80 /\
+  2147483648 <= res_alloc (run (policy_data faithful) d).
+Proof. exists (custom_witness [0; 0; 0; 64]). vm_compute. split; [reflexivity | discriminate]. Qed.
+
+Lemma P_lookup_partial : forall h, 32 <= lenZ h ->
+  value_or_error (run (lookup_acm_size h) h) /\ res_steps (run (lookup_acm_size h) h) <= 1 /\
+  res_alloc (run (lookup_acm_size h) h) = 0.
+Proof.
+  intros h H. apply cost_total_run; [lia | now apply lookup_acm_size_nopanic | apply lookup_acm_size_nofuel | apply lookup_acm_size_cost].
+Qed.
+Lemma P_lookup_refuted : exists h, lenZ h = 16 /\ run (lookup_acm_size h) h = RPanic.
+Proof. exists (repeat 0 16). split; [reflexivity | exact lookup_acm_size_panics]. Qed.
+Lemma P_lookup_short : forall h, lenZ h < 32 -> run (lookup_acm_size h) h = RPanic.
+Proof. intros h H. now apply lookup_acm_size_short. Qed.
+
+Lemma P_acm_info_total : forall fx total user, value_or_error (run (acm_info fx total) user).
+Proof. intros. apply voe_run; [apply acm_info_nopanic | apply acm_info_nofuel]. Qed.
+Lemma P_acm_info_alloc_refuted : exists total user, lenZ total = 4 /\ lenZ user = 48 /\
+  2147483648 <= res_alloc (run (acm_info faithful total) user).
+Proof. exists [0; 0; 0; 8], (repeat 0 48). vm_compute. repeat split; discriminate. Qed.
+
+Lemma P_txt_regs_partial : forall d, 816 <= lenZ d -> value_or_error (run (parse_txt_regs d) d).
+Proof. intros d H. apply voe_run; [now apply parse_txt_regs_nopanic | apply parse_txt_regs_nofuel]. Qed.
+Lemma P_txt_regs_cost : forall d,
+  run (parse_txt_regs d) d <> RFuel /\ res_steps (run (parse_txt_regs d) d) <= 22 /\
+  res_alloc (run (parse_txt_regs d) d) = 0.
+Proof. intros d. split; [apply parse_txt_regs_nofuel | apply cost_run; [lia | apply parse_txt_regs_cost]]. Qed.
+Lemma P_txt_regs_refuted : exists d, lenZ d = 16 /\ run (parse_txt_regs d) d = RPanic.
+Proof. exists (repeat 0 16). split; [reflexivity | exact parse_txt_regs_panics]. Qed.
+
+Lemma P_bios_data : forall d,
+  value_or_error (run parse_bios_data d) /\ res_steps (run parse_bios_data d) <= 8 /\ res_alloc (run parse_bios_data d) = 0.
+Proof.
+  intros. apply cost_total_run; [lia | apply parse_bios_data_nopanic | apply parse_bios_data_nofuel | apply parse_bios_data_cost].
+Qed.
+
+Lemma P_acm_status_partial : forall d, 808 <= lenZ d ->
+  value_or_error (run (read_acm_status d) d) /\ res_steps (run (read_acm_status d) d) <= 1 /\
+  res_alloc (run (read_acm_status d) d) = 0.
+Proof.
+  intros d H. apply cost_total_run; [lia | now apply read_acm_status_nopanic | apply read_acm_status_nofuel | apply read_acm_status_cost].
+Qed.
+Lemma P_acm_status_refuted : exists d, lenZ d = 16 /\ run (read_acm_status d) d = RPanic.
+Proof. exists (repeat 0 16). split; [reflexivity | exact read_acm_status_panics]. Qed.
+
+Lemma P_raw64 : forall d off,
+  value_or_error (run (read_raw64_at d off) d) /\ res_steps (run (read_raw64_at d off) d) <= 1 /\
+  res_alloc (run (read_raw64_at d off) d) = 0.
+Proof.
+  intros. apply cost_total_run; [lia | apply read_raw64_at_nopanic | apply read_raw64_at_nofuel | apply read_raw64_at_cost].
+Qed.
+
+Lemma P_readtxt_partial : forall d, 1024 <= lenZ d ->
+  value_or_error (run (read_txt_registers d) d) /\ res_steps (run (read_txt_registers d) d) <= 16 /\
+  res_alloc (run (read_txt_registers d) d) = 0.
+Proof.
+  intros d H. apply cost_total_run; [lia | now apply read_txt_registers_nopanic | apply read_txt_registers_nofuel | apply read_txt_registers_cost].
+Qed.
+Lemma P_readtxt_refuted : exists d, lenZ d = 16 /\ run (read_txt_registers d) d = RPanic.
+Proof. exists (repeat 0 16). split; [reflexivity | exact read_txt_registers_panics]. Qed.
+Lemma P_readreg_partial : forall d k off w sl,
+  nth_error txt_reg_table (Z.to_nat k) = Some (off, w, sl) -> off <= lenZ d ->
+  value_or_error (run (read_reg_k d k) d) /\ res_steps (run (read_reg_k d k) d) <= 1 /\ res_alloc (run (read_reg_k d k) d) = 0.
+Proof.
+  intros d k off w sl Hk Hl. apply cost_total_run; [lia | | apply read_reg_k_nofuel | apply read_reg_k_cost].
+  eapply read_reg_k_nopanic; [exact Hk | exact Hl].
+Qed.
+Lemma P_readreg_seek : forall d k off w,
+  nth_error txt_reg_table (Z.to_nat k) = Some (off, w, false) -> value_or_error (run (read_reg_k d k) d).
+Proof.
+  intros d k off w Hk. apply voe_run; [|apply read_reg_k_nofuel].
+  unfold read_reg_k. rewrite Hk. apply read_reg_nopanic. cbn. intros; discriminate.
+Qed.
+Lemma P_readreg_short : forall d k off w,
+  nth_error txt_reg_table (Z.to_nat k) = Some (off, w, true) -> lenZ d < off -> run (read_reg_k d k) d = RPanic.
+Proof. intros d k off w Hk Hl. eapply read_reg_k_panics; eauto. Qed.
+Lemma P_readreg_unknown : forall d k, nth_error txt_reg_table (Z.to_nat k) = None -> value_or_error (run (read_reg_k d k) d).
+Proof. intros d k Hk. apply voe_run; [|apply read_reg_k_nofuel]. unfold read_reg_k. rewrite Hk. apply nopanic_fail. Qed.
+
+Lemma P_value_from_bytes : forall id b,
+  value_or_error (run (value_from_bytes id b) b) /\ res_steps (run (value_from_bytes id b) b) <= 1 /\
+  res_alloc (run (value_from_bytes id b) b) = 0.
+Proof.
+  intros. apply cost_total_run; [lia | apply value_from_bytes_nopanic | apply value_from_bytes_nofuel | apply value_from_bytes_cost].
+Qed.
+
+Lemma P_event_data : forall d e isz,
+  (EventLog.parse_locality d <> Panic /\ EventLog.parse_locality d <> OutOfFuel) /\
+  (EventLog.parse_event_data e isz <> Panic /\ EventLog.parse_event_data e isz <> OutOfFuel).
+Proof. intros. split; [apply Proofs.EventLog.parse_locality_no_panic | apply Proofs.EventLog.parse_event_data_total]. Qed.
+
+Lemma P_sysfs : forall d,
+  value_or_error (run (parse_sysfs_pcrs d) d) /\ res_steps (run (parse_sysfs_pcrs d) d) <= lenZ d + 1 /\
+  res_alloc (run (parse_sysfs_pcrs d) d) = 0.
+Proof. intros d. split; [apply parse_sysfs_pcrs_total | apply parse_sysfs_pcrs_steps]. Qed.
+Lemma P_sysfs_guard : exists d,
+  run (parse_sysfs_pcrs_g false d) d = RPanic /\ outcome_of (run (parse_sysfs_pcrs d) d) = Err E_OTHER.
+Proof. exists sysfs_25. exact sysfs_unguarded_panics. Qed.
+
+Lemma P_local_caps : forall d,
+  value_or_error (run (local_caps d) d) /\ res_steps (run (local_caps d) d) <= lenZ d + 1 /\ res_alloc (run (local_caps d) d) = 0.
+Proof. intros d. split; [apply local_caps_total | apply local_caps_steps]. Qed.
+
+Lemma P_bytes_range : forall len a b i, value_or_error (run (bytes_range len a b) i).
+Proof. intros. apply bytes_range_total. Qed.
+
+Lemma P_decrypt_partial : forall pw d, (pw = true -> 12 <= lenZ d) -> value_or_error (run (decrypt_frame pw d) d).
+Proof.
+  intros pw d H. apply voe_run; [now apply decrypt_frame_nopanic|].
+  intros s. unfold decrypt_frame. destruct pw; [destruct (has_len d 12)|]; discriminate.
+Qed.
+Lemma P_decrypt_refuted : exists d, lenZ d = 3 /\ run (decrypt_frame true d) d = RPanic.
+Proof. exists [1; 2; 3]. split; [reflexivity | exact decrypt_frame_panics]. Qed.
+Lemma P_decrypt_short : forall d, lenZ d < 12 -> run (decrypt_frame true d) d = RPanic.
+Proof.
+  intros d H. unfold run, decrypt_frame. destruct (has_len d 12) eqn:E; [apply has_len_true in E; lia | reflexivity].
+Qed.
+
+(** examples: the hypotheses are satisfiable *)
+Lemma ex_lookup : 32 <= lenZ (repeat 0 24 ++ [2; 1; 0; 0] ++ repeat 0 4) /\
+  outcome_of (run (lookup_acm_size (repeat 0 24 ++ [2; 1; 0; 0] ++ repeat 0 4)) (repeat 0 24 ++ [2; 1; 0; 0] ++ repeat 0 4)) = Ok [1032].
+Proof. vm_compute. split; [discriminate | reflexivity]. Qed.
+(** a well-formed file: one list with one custom element of Size 40 (8 data bytes) *)
+Definition custom_ok : list Z :=
+  LCP_SIG ++ [0; 0; 0; 1] ++ [0; 1; 0; 0; 40; 0; 0; 0] ++ [40; 0; 0; 0] ++ [3; 0; 0; 0; 0; 0; 0; 0]
+  ++ [239; 190; 173; 222; 1; 0; 2; 0; 3; 0; 1; 2; 3; 4; 5; 6] ++ [205; 205; 205; 205; 205; 205; 205; 205].
+Lemma ex_fixes : fx_custom_min all_fixed = true /\ fx_cap all_fixed = true /\
+  outcome_of (run (policy_data all_fixed) (custom_witness [20; 0; 0; 0])) = Err E_FIX /\
+  outcome_of (run (policy_data all_fixed) (custom_witness [0; 0; 0; 64])) = Err E_FIX /\
+  outcome_of (run (policy_data all_fixed) custom_ok) = outcome_of (run (policy_data faithful) custom_ok) /\
+  (exists v, outcome_of (run (policy_data faithful) custom_ok) = Ok v) /\
+  res_alloc (run (policy_data faithful) custom_ok) = 88.
+Proof. vm_compute. repeat split; try reflexivity. eexists; reflexivity. Qed.
+Lemma ex_readreg : nth_error txt_reg_table (Z.to_nat 4) = Some (1024, 32, true) /\
+  nth_error txt_reg_table (Z.to_nat 0) = Some (888, 8, false) /\ nth_error txt_reg_table (Z.to_nat 16) = None.
+Proof. repeat split; reflexivity. Qed.
+Lemma ex_readtxt : 1024 <= lenZ (repeat 7 1056) /\
+  exists v, outcome_of (run (read_txt_registers (repeat 7 1056)) (repeat 7 1056)) = Ok v.
+Proof. split; [vm_compute; discriminate | eexists; vm_compute; reflexivity]. Qed.
+Lemma ex_decrypt : (true = true -> 12 <= lenZ (repeat 1 12)) /\ run (decrypt_frame true (repeat 1 12)) (repeat 1 12) <> RPanic.
+Proof. split; [intros _; vm_compute; discriminate | vm_compute; discriminate]. Qed.
